@@ -166,6 +166,8 @@ class Env:
         Liveness ('eventually') clauses are only judged on executions where it does not."""
         if any(r.state in ('new', 'applied') for r in self.world.pending):
             return True
+        if self.user_idx < len(self.user):
+            return True   # the scripted user has not even finished acting
         return any(self.world.stream_next(s) is not None for s in self.world.open_streams())
 
     def events_of(self, kind: str) -> list[tuple[float, dict[str, Any]]]:
